@@ -1,4 +1,16 @@
+from vlib.core import Query
 from checks import pipeseq as ps
+
+PLAY_OPN = {0: "SUB0.set_flow_def(latency 0)", 1: "SUB0.set_flow_def(latency 5)", 2: "SUB1.set_flow_def(latency 9)", 3: "SUB1.set_flow_def(latency 2)",
+            4: "input SUB0", 5: "input SUB1", 6: "set_output(SUB0,S0)", 7: "set_output(SUB1,S1)", 8: "S0 answers sink latency", 9: "S1 answers sink latency (low)"}
+
+
+def play_query(ops, timeout, sample=False, replay=False):
+    return Query(name="play_" + "-".join(map(str, ops)), harness="C04_play.c",
+                 defines=["OPS=" + ",".join(map(str, ops)), "WITNESS_DELIVERED=0", "VERIF_POOL_NO_MGR_REF"], shims=ps.SHIMS,
+                 unwind=max(10, len(ops) + 3), unwindset=[u for u in ps.UW if not u.startswith(("env_count", "probe_check"))] + ["order.0:62", "udict_cmp.0:8"],
+                 fp_restrict=True, timeout=timeout, leak=True, replay_witness=replay,
+                 sample={"pipe": "play (2 sub-pipes, 2 sinks)", "operations": [PLAY_OPN[o] for o in ops] + ["release"], "symbolic": "payload octets"} if sample else None)
 
 CLAIM = {
     "text": "Bounded model checking of real linear pipes (idem, skip, htons, setflowdef, setattr, probe_uref, delay, match_attr, null, plus a pass-through pipe assembled in the harness from the real helper macros that rebuilds its flow definition the way upipe_audio_merge / upipe_play / upipe_sync do; "
@@ -8,10 +20,15 @@ CLAIM = {
             "DEAD is thrown exactly once and is the last event, neither the probe nor an output is touched after it; a sink receives a buffer "
             "only after it has accepted the pipe's CURRENT flow definition (compared by definition string), again after every definition "
             "change and on every newly connected output; nothing is delivered to an output that refused the definition or to a pipe that is "
-            "not the connected output. Payload octets and option values are symbolic in every query.",
+            "not the connected output. Payload octets and option values are symbolic in every query. "
+            "PIPE WITH SUB-PIPES: the real upipe_play.c (helper_subpipe) with two sub-pipes and two sinks (harness/C04_play.c): the total "
+            "latency stamped on every sub-pipe's flow definition changes when ANOTHER sub-pipe gets a larger latency or a sink answers "
+            "the latency request; at every delivery the definition last accepted by the sink must equal the sub-pipe's current one "
+            "(attribute by attribute) and carry the reference model's latency; ready first / dead last for the three pipes.",
     "note": "Trusted: CBMC 6.11, harness probe/sinks/monitors (pipe_env.h, pipe_seq.c), fprestrict.py target sets (assertion-guarded), "
             "shims as listed in the evidence. Bounds: sequences of 4 (quick) / 5 (thorough) operations from the stated alphabets; "
-            "3-octet single-segment buffers. Not covered: split/bin/sub-pipes, pipes needing external libraries, ts_psi_join/ts_psi_split.",
+            "3-octet single-segment buffers. Not covered: split / bin pipes and sub-pipe pipes other than upipe_play, pipes needing external libraries, "
+            "ts_psi_join / ts_psi_split.",
     "technique": "CBMC bounded model checking of real C pipes with online protocol monitors; complete enumeration of operation sequences "
                  "within the stated alphabet/length, symbolic payloads",
 }
@@ -40,14 +57,23 @@ def build(tier):
         for i, ops in enumerate(sq):
             qs.append(ps.query("C04", pipe, ops, timeout=280 if quick else 900, sample=(i % 40 == 5), replay=(i % 60 == 5),
                                witness_delivered=0))
+    # upipe_play: a pipe with sub-pipes whose flow definitions change because of what happens on ANOTHER sub-pipe or at a sink
+    if quick:
+        pl = [[0, 6, 4] + t for t in ps.seqs([1, 2, 3, 4, 5, 7, 8], 2, last=(4, 5))] + \
+             [[0, 6, 4, 7, 2, 4, 5], [6, 0, 4, 8, 4], [0, 6, 4, 2, 4, 7, 5, 3, 5, 9, 4], [2, 7, 0, 6, 5, 4, 1, 5, 4], [6, 7, 0, 2, 4, 5, 8, 4, 5]]
+    else:
+        pl = [[0, 6, 4] + t for t in ps.seqs([1, 2, 3, 4, 5, 7, 8, 9], 3, last=(4, 5))] + [[6, 7, 0, 2] + t for t in ps.seqs([1, 3, 4, 5, 8, 9], 3, last=(4, 5))] + \
+             [[0, 6, 4, 7, 2, 4, 5], [6, 0, 4, 8, 4], [0, 6, 4, 2, 4, 7, 5, 3, 5, 9, 4], [2, 7, 0, 6, 5, 4, 1, 5, 4]]
+    for i, ops in enumerate(pl):
+        qs.append(play_query(ops, 280 if quick else 900, sample=(i == 2), replay=(i % 8 == 2)))
     seen = set()
     qs = [q for q in qs if not (q.name in seen or seen.add(q.name))]
-    meta = {"bounds": {"pipes": sorted({ps.PIPES[p] for p, _ in plan}), "sequence_length": "up to 6 (streaming prefix of 3 + every tail of 2-3 operations)",
+    meta = {"bounds": {"pipes": sorted({ps.PIPES[p] for p, _ in plan} | {"play (sub-pipes)"}), "sequence_length": "up to 6 (streaming prefix of 3 + every tail of 2-3 operations)",
                        "sequences": len(qs), "buffer_octets": 3},
             "exhaustive": True,
             "rule": "every operation sequence of the stated length over the stated alphabet (per pipe) is one query; exhaustive within that "
                     "enumeration; a query is non-trivial if the solver decided at least one verification condition",
             "assumptions": ps.COMMON_ASSUME,
-            "outside": ["sequences longer than the bound", "split / bin / sub-pipes (upipe_dup, helper_bin_output, helper_subpipe)",
+            "outside": ["sequences longer than the bound", "split / bin pipes and other sub-pipe pipes (upipe_dup, helper_bin_output)",
                         "ts_psi_join / ts_psi_split", "pipes needing external libraries"]}
     return qs, meta
